@@ -15,11 +15,18 @@ def nondominated(F):
     return True
 
 
+def pick_n_remove(rng, N, M):
+    """uniform over 0..N half of the time, otherwise one of the limits of the pruning range"""
+    if rng.random() < 0.5:
+        return rng.randint(0, N)
+    return max(0, min(N, rng.choice([0, 1, N - M - 1, N - M, N - M + 1, N - 3, N - 2, N - 1, N])))
+
+
 def gen_front(rng, max_n=24, objs=(2, 2, 3, 3, 4, 5), styles=None):
     """non-dominated fronts: continuous simplex, grid-valued, with constant objectives, tied extremes, duplicates"""
     for _ in range(400):
         M = rng.choice(objs); N = rng.randint(1, max_n)
-        style = rng.choice(styles or ["simplex", "simplex", "grid", "gridfront", "gridfront", "perm", "const", "dups", "tiedext", "tinyrange", "hugerange"])
+        style = rng.choice(styles or ["simplex", "simplex", "grid", "gridfront", "gridfront", "perm", "const", "dups", "tiedext", "tinyrange", "hugerange", "curve"])
         tied = style == "tiedfront"
         if tied:
             style = "gridfront"
@@ -37,6 +44,17 @@ def gen_front(rng, max_n=24, objs=(2, 2, 3, 3, 4, 5), styles=None):
                 if nt < 2:
                     continue
                 style = "tiedfront"
+        elif style == "curve":
+            # a curve-like (degenerate) front: every objective is a monotone function of one parameter, so the two end points hold
+            # the extremes of ALL objectives and every other point is interior
+            ts = sorted(rng.random() for _ in range(N))
+            up = [lambda t: t, lambda t: t * t, lambda t: t ** 0.5, lambda t: 0.25 + 0.5 * t]
+            down = [lambda t: 1 - t, lambda t: (1 - t) ** 2, lambda t: 1 - t ** 0.5, lambda t: 2.0 - t * t]
+            gs = [rng.choice(up)] + [rng.choice(down)] + [rng.choice(up + down) for _ in range(M - 2)]
+            rng.shuffle(gs)
+            F = np.array([[g(t) for g in gs[:M]] for t in ts]) if M >= 2 else np.array([[t] for t in ts])
+            if len(np.unique(F, axis=0)) < N:
+                continue
         elif style == "simplex":
             F = np.array([[rng.random() for _ in range(M)] for _ in range(N)]); F = F / F.sum(axis=1, keepdims=True)
         elif style == "grid":
